@@ -40,6 +40,18 @@ CHECKS = {
  "C18": ("SEQ", "model_checking", "4 (C18)",
          "All generated nestings up to the stated size with a busy-wait before every operation and harness-side clock brackets around every operation, x cycle placements; oracle: duration within [finish-start] brackets, begin time within the run window, child inside parent, siblings disjoint, events inside their span, elapsed() within brackets.",
          "explicit enumeration of operation sequences x cycle placements with clock-bracket oracle (stateless exploration of the real code)"),
+ "C07": ("SEQ", "model_checking", "4 (C07)",
+         "Every public call in hostile states: bounded-exhaustive call sequences over no-op / unsampled / all-no-op-parent / scope-less / local-collector states in three process states (no reporter, default, cancelable); every closure-taking call x calls issued from inside its closure; scope-stack, span-queue and ring limits; calls from thread-local destructors in every registration order; multi-threaded scenarios with the collector parked at each of its points. Oracle: no unwind out of any call (debug assertions on), no deadlock, no call that fails to return.",
+         "explicit enumeration of call sequences and fault states on the real code; preemption-bounded schedule enumeration for the blocking clause"),
+ "C09": ("SCHED", "model_checking", "4 (C09)",
+         "Queue-full episodes on the real 10240-slot ring: fill leaving 0/1/2 slots, every sequence of operations during the episode, recovery interleaved with the collector's first pops, fresh trace after the drain; all schedules up to the preemption bound in both configurations; plus the per-scope span limit. Oracle: every call returns, missing records only where a submit hit the full ring, every delivered record correct, cancelled traces stay suppressed, collector state returns to baseline, fresh trace complete.",
+         "stateless model checking: preemption-bounded DFS over schedules of the real code with fault (queue-full) injection through the public API"),
+ "C13": ("SEQ", "model_checking", "4 (C13)",
+         "All adapter programs up to the stated poll count (polling thread per poll, drop at every point, completed adapter kept alive, nesting, enter_on_poll with and without local parent) x every placement of collector cycles x both configurations; oracle: local context inside/after every poll, span record exists exactly from completion/drop, everything of the final poll in the trace (cancelable: in the root's batch), one enter_on_poll record per poll.",
+         "explicit enumeration of poll sequences x cycle placements against a reference model (stateless exploration of the real code)"),
+ "C14": ("SEQ", "model_checking", "4 (C14)",
+         "Same for scripted Stream (items / Pending / None) and Sink (ready / send / flush / close with a pending close) call sequences, migration between two threads, drop at every point.",
+         "explicit enumeration of call sequences x cycle placements against a reference model (stateless exploration of the real code)"),
 }
 
 props = [json.loads(l) for l in open("properties.jsonl")]
